@@ -36,6 +36,33 @@ def obligations():
             Obl(f"C18.{fmt}.two_handles", "xh", "harness.c18_array", f"{fmt}_two_handles", enc, "total<=5, op on A in {read(n),read(),seek}",
                 "an operation on handle A does not change what handle B reads next, its tell or len", 90),
         ]
+    for fmt, Cls, mod in (("mdcrd", "MDCRDTrajectoryFile", "mdcrd"), ("xyz", "XYZTrajectoryFile", "xyzfile"),
+                          ("lammpstrj", "LAMMPSTrajectoryFile", "lammpstrj")):
+        enc = [f"mdtraj.formats.{mod}.{Cls}.{m}" for m in ("read", "_read", "seek", "tell")]
+        T = "in-memory file of total<=5 frames x 3 atoms"
+        o += [
+            Obl(f"C18.{fmt}.read_n", "xh", "harness.c18_text", f"{fmt}_read_n", enc, T + ", 0<=pos<=total, 1<=n<=6",
+                "read(n) returns the next n frames, tell advances by the number returned", 90, replay="harness.c18_replay:replay"),
+            Obl(f"C18.{fmt}.read_all", "xh", "harness.c18_text", f"{fmt}_read_all", enc, T, "read() returns the remainder and leaves tell()==total", 90,
+                replay="harness.c18_replay:replay"),
+            Obl(f"C18.{fmt}.read_atoms", "xh", "harness.c18_text", f"{fmt}_read_atoms", enc, "total<=3, n<=3, every non-empty subset of 3 atoms",
+                "read(n, atom_indices) returns the same frames restricted to those atoms", 120),
+            Obl(f"C18.{fmt}.seek", "xh", "harness.c18_text", f"{fmt}_seek", enc, T + ", whence in {0,1}, in-range offsets (whence=2 is documented as unsupported)",
+                "seek then tell/read(1) agree with the cursor model, forwards (skip-read) and backwards (re-open and skip)", 120,
+                replay="harness.c18_replay:replay"),
+        ] + [
+            Obl(f"C18.{fmt}.two_handles.{k}", "xh", "harness.c18_text", f"{fmt}_two_handles_{k}", enc, "total<=3, n<=3",
+                f"{k} on handle A does not change what handle B reads next nor its tell", 120) for k in ("read_n", "read_all", "seek")
+        ]
+    enc = ["mdtraj.formats.mdcrd.MDCRDTrajectoryFile.read", "mdtraj.formats.mdcrd.MDCRDTrajectoryFile._read", "mdtraj.formats.mdcrd.MDCRDTrajectoryFile.seek"]
+    o += [Obl("C18.mdcrd.box.read_n", "xh", "harness.c18_text", "mdcrd_box_read_n", enc, "file with box lines, total<=5", "box-line peek-ahead keeps the cursor on frame boundaries", 90),
+          Obl("C18.mdcrd.box.seek", "xh", "harness.c18_text", "mdcrd_box_seek", enc, "file with box lines, total<=5", "seek over frames with box lines", 120),
+          Obl("C18.xyz.len", "xh", "harness.c18_text", "xyz_len", ["mdtraj.formats.xyzfile.XYZTrajectoryFile.__len__"], "total<=5, any pos",
+              "len() reports the number of frames and does not disturb the cursor, whatever was done before", 60),
+          Obl("C18.arc.read_n", "xh", "harness.c18_text", "arc_read_n", ["mdtraj.formats.arc.ArcTrajectoryFile.read", "mdtraj.formats.arc.ArcTrajectoryFile._read"], "total<=5",
+              "sequential read(n) on TINKER arc returns the next n frames", 90),
+          Obl("C18.arc.seek_tell", "xh", "harness.c18_text", "arc_seek_tell", ["mdtraj.formats.arc.ArcTrajectoryFile.seek", "mdtraj.formats.arc.ArcTrajectoryFile.tell"], "total<=5",
+              "arc is listed as seekable: seek(k); tell()==k", 30)]
     return o
 
 MANIFEST_INFO = {
